@@ -204,3 +204,23 @@ Fixpoint sort_decls (ls : list (list Z)) : list (list Z) :=
 
 Definition canon (ls : list (list Z)) : list (list Z) := sort_decls (map (ren_line (id_table ls)) ls).
 Definition canon_eq (a b : list (list Z)) : Prop := canon a = canon b.
+(* a line that carries no instance-numbered identifier *)
+Definition no_ids (l : list Z) : Prop := flat_map sufs (tokens [] l) = [].
+
+(* ------------------------------------------------------------------ (3) the same design built again: other identities
+   fo renames object identities, fw wire identities.  Names (vname) never contain an identity; module names do. *)
+Definition ren_port (fw : Z -> Z) (p : port) : port :=
+  {| p_name := p_name p; p_res := p_res p; p_wire := fw (p_wire p); p_wtok := p_wtok p; p_fake := p_fake p |}.
+Fixpoint ren_node (fo fw : Z -> Z) (n : node) : node :=
+  match n with
+  | Node i a b c d e f ports kids => Node (fo i) a b c d e f (map (ren_port fw) ports) (map (ren_node fo fw) kids)
+  end.
+Definition ren_sname (fo : Z -> Z) (s : sname) : sname := (fst s, option_map fo (snd s)).
+Definition ren_item (fo : Z -> Z) (i : item) : item :=
+  match i with IInst m n cs => IInst (ren_sname fo m) n cs | _ => i end.
+Definition ren_chunk (fo : Z -> Z) (c : chunk) : chunk :=
+  match c with
+  | CModule nm clk ps ds body => CModule (ren_sname fo nm) clk ps ds (map (ren_item fo) body)
+  | CInlineTop _ _ => c
+  end.
+Definition injective (f : Z -> Z) : Prop := forall x y, f x = f y -> x = y.
